@@ -10,11 +10,12 @@ import traceback
 SPIN_FRAMES = ("expand_workflow_async", "get_runnable_tasks", "update_status")
 
 
-def spin_detector(main_id, log, out, quiet=12.0, period=0.25):
-    """Conclusive live-lock evidence (not a timeout): for `quiet` seconds no scheduler command was issued and
-    EVERY sample of the main thread's stack was executing the submitter's workflow loop (never waiting in the
-    event loop's select) => write outcome "livelock" with the stack and exit."""
-    since, last_size = None, -1
+def spin_detector(main_id, log, out, cpu_quiet=6.0, period=0.25):
+    """Conclusive live-lock evidence (not a timeout): while this process burnt `cpu_quiet` CPU-seconds no
+    scheduler command was issued and EVERY sample of the main thread's stack was executing the submitter's
+    workflow loop (never waiting in the event loop's select) => write outcome "livelock" with the stack and
+    exit.  CPU time, not wall time, so that a slow (overloaded) machine cannot trigger it."""
+    since, last_size, samples = None, -1, 0
     while True:
         time.sleep(period)
         fr = sys._current_frames().get(main_id)
@@ -28,12 +29,15 @@ def spin_detector(main_id, log, out, quiet=12.0, period=0.25):
             size = 0
         spinning = "select" not in names and any(n in SPIN_FRAMES for n in names)
         if not spinning or size != last_size:
-            since, last_size = None, size
+            since, last_size, samples = None, size, 0
             continue
-        since = since or time.time()
-        if time.time() - since >= quiet:
+        if since is None:
+            since = time.process_time()
+        samples += 1
+        if time.process_time() - since >= cpu_quiet and samples >= 20:
             with open(out, "w") as f:
-                json.dump({"outcome": "livelock", "stack": names[:12], "quiet_s": quiet}, f)
+                json.dump({"outcome": "livelock", "stack": [n for n in names if n in SPIN_FRAMES] + names[:10],
+                           "cpu_quiet_s": cpu_quiet, "samples": samples}, f)
             os._exit(3)
 
 
